@@ -5,6 +5,7 @@
 From Coq Require Import List NArith ZArith Bool.
 Import ListNotations.
 Require Import Constants Config ConstantsAgree.
+Require Codec Frame Rijndael RijP1 Cipher SCipher Validate Client ClientSend Session C05Proofs.
 Local Open Scope Z_scope.
 
 Theorem C16_iff : forall c, (exists c', check c = inl c') <->
@@ -42,4 +43,25 @@ Example C16_nonvacuous :
            use_checksum := COther 2; rbuf_blocks := 0 |} = inr (Missing [FAddress; FPassword]).
 Proof. split; [eexists; split; [reflexivity|]|]; vm_compute; repeat split. Qed.
 
+(* "behave as the documented defaults" over the whole life of a client: in the client model the options in use are those of
+   the effective configuration, whatever happened before - for EVERY client state and world (after any history of calls,
+   failures, disconnects and reconnects) a request that is transmitted goes out as exactly one frame built with the configured
+   checksum setting, under a write deadline of the effective send timeout (theories/C05Proofs.v; the seeded change C16h - the
+   option resolved once into a field that Disconnect forgets - breaks this and is found by the CFGLIFE cases) *)
+Section InUse.
+  Import Codec Frame Rijndael RijP1 Cipher SCipher Client ClientSend Session C05Proofs.
+  Local Open Scope N_scope.
+  Theorem C16_checksum_in_use : forall c, RijP1.bytes_ok (s_key c) -> forall s w ms s' w' u, Forall Validate.repr_msg ms ->
+    let ks := key_schedule (key_pad (s_key c)) in
+    send message (c_encode (s_crc c)) (s_enc ks) c_valid (eff_to (s_send_to c)) renv reactive s w ms = (s', w', Ok unit u) ->
+    exists new ct ts, out message renv w' = new ++ out message renv w /\ writes_of message new = [ct] /\
+      s_decP ks (eiv s) ct = pad32 (frame (fst ts) (snd ts) (s_crc c) ms).
+  Proof.
+    intros c Bk s w ms s' w' u Hr ks H.
+    destruct (C05Proofs.C05_send c Bk s w ms s' w' (Ok unit u) Hr H) as (new & Hout & _ & _ & ct & ts & Hw & _ & _ & _ & Hp & _).
+    exists new, ct, ts. auto.
+  Qed.
+End InUse.
+
 Print Assumptions C16_iff. Print Assumptions C16_error_names. Print Assumptions C16_defaults. Print Assumptions C16_constants.
+Print Assumptions C16_checksum_in_use.
